@@ -740,11 +740,14 @@ class Saver:
         rechunker = strax.Rechunker(
             rechunk=rechunk and self.allow_rechunk, run_id=self.md["run_id"]
         )
+        # Data with gaps or overlaps between chunks must not be stored as valid: the
+        # consumer of the target checks this too, but may only get there after we are done.
+        checked_source = strax.continuity_check(source)
 
         try:
             while not exhausted:
                 try:
-                    chunks = rechunker.receive(next(source))
+                    chunks = rechunker.receive(next(checked_source))
                 except StopIteration:
                     exhausted = True
                     chunks = rechunker.flush()
